@@ -251,6 +251,18 @@ def record_filters(run: Run, rnd: random.Random, thorough: bool, evs: list[dict[
         probes = list(members)[: (40 if thorough else 10)] + [rnd.randbytes(22) for _ in range(6)] + [b"\x6a\x04\xde\xad\xbe\xef"]
         for el in probes:
             evs.append({"op": "match", "hash": blk.header.hash.hex(), "n": f.element_count, "bytes": f.encoded_set.hex(), "element": el.hex(), "member": el in members, "out": outcome(lambda: f.match(el))})
+        # sets of queries: a wallet's worth of scripts that are not in the block with no, one or several members among them, at the front, in the middle and
+        # at the end; the members alone; the same query twice; the empty set
+        mem = sorted(members)[:6]
+        decoys = [b"\x00\x14" + rnd.randbytes(20) for _ in range(60 if thorough else 25)]
+        queries: list[list[bytes]] = [[], decoys, mem, mem[:1] * 2, decoys + mem[:1], mem[:1] + decoys, decoys[:10] + mem[:1] + decoys[10:], decoys + mem[-1:], decoys[:3] + mem[:2] + decoys[3:6]]
+        for m_ in mem[1:4]:
+            queries.append(rnd.sample(decoys + [m_], len(decoys) + 1))
+        for q in queries:
+            got = outcome(lambda: f.match_any(q))
+            if not q and isinstance(got, str):
+                continue            # (an empty query set may be refused: there is nothing to ask)
+            evs.append({"op": "match_any", "hash": blk.header.hash.hex(), "n": f.element_count, "bytes": f.encoded_set.hex(), "elements": [x.hex() for x in q], "out": got})
         # what the octets decode to, and every kind of damage to them
         ser = f.encoded_set
         variants = [(f.element_count, ser), (f.element_count, ser + b"\x00"), (f.element_count, ser[:-1]), (f.element_count + 1, ser), (max(0, f.element_count - 1), ser)]
@@ -317,9 +329,11 @@ def record_compact(run: Run, rnd: random.Random, thorough: bool, evs: list[dict[
     for blk in usable:
         txs = list(blk.transactions)
         n = len(txs)
-        for rep in range(12 if thorough else 5):
+        for rep in range(14 if thorough else 7):
             nonce = rnd.getrandbits(64) if rep else 0
-            pre_idx = sorted({0} | ({rnd.randrange(n) for _ in range(rnd.randint(0, 2))} if rep % 2 else set()))
+            # the prefilled set: the coinbase alone (what a sender does), the coinbase and others, and sets without the coinbase -- none at all, the
+            # second transaction, the last one -- which BIP152 allows as well (the pools then hold the coinbase)
+            pre_idx = sorted([{0}, {0} | {rnd.randrange(n) for _ in range(rnd.randint(1, 2))}, set(), {1}, {n - 1}, {0, n - 1}, {rnd.randrange(1, n), rnd.randrange(1, n)}][rep % 7])
             cb0 = CmpctBlock(blk.header, nonce, [], [], check_validity=False)
             sids = [cb0.short_id(t.hash) for k, t in enumerate(txs) if k not in pre_idx]
             mode = ["honest", "honest", "dup-sid", "foreign-sid", "honest"][rep % 5]
@@ -332,8 +346,9 @@ def record_compact(run: Run, rnd: random.Random, thorough: bool, evs: list[dict[
                 pool_extra = [f]
             cb = CmpctBlock(blk.header, nonce, sids, [PrefilledTransaction(k, txs[k], check_validity=False) for k in pre_idx], check_validity=False)
             for pool_kind in ("all", "shuffled+foreign", "some", "none", "twice"):
-                pool = {"all": txs[1:], "shuffled+foreign": rnd.sample(txs[1:] + foreign[:5], len(txs[1:] + foreign[:5])), "some": [t for t in txs[1:] if rnd.random() < 0.5],
-                        "none": [], "twice": txs[1:] + txs[1:]}[pool_kind] + pool_extra
+                mine = txs[1:] if 0 in pre_idx else txs
+                pool = {"all": mine, "shuffled+foreign": rnd.sample(mine + foreign[:5], len(mine + foreign[:5])), "some": [t for t in mine if rnd.random() < 0.5],
+                        "none": [], "twice": mine + mine}[pool_kind] + pool_extra
                 for t in {id(t): t for t in pool + txs}.values():
                     evs.append({"op": "sid", "header": blk.header.serialize(check_validity=False).hex(), "nonce": nonce.to_bytes(8, "little").hex(), "wtxid": t.hash.hex(), "out": nat(cb.short_id(t.hash))}) if rep == 0 and pool_kind == "all" else None
                 r = outcome(lambda: reconstruct(cb, pool))
@@ -376,7 +391,7 @@ def check(run: Run) -> None:
     record_compact(run, rnd, thorough, evs, blocks)
     evs = [e for e in evs if e is not None]
     keep = ("op", "tag", "leaves", "root", "mutated", "leaf", "branch", "index", "out", "txid", "hex", "root_ok", "commit_ok", "prevouts", "n", "bytes", "hash", "element", "bits", "target",
-            "negative", "timespan", "limit", "header", "nonce", "wtxid", "count", "prefilled", "sids", "pool", "slots", "supplied", "refused")
+            "negative", "timespan", "limit", "header", "nonce", "wtxid", "count", "prefilled", "sids", "pool", "slots", "supplied", "refused", "elements")
     compact = [{k: v for k, v in e.items() if k in keep} for e in evs]
     results, bad, diag = events.validate("C17Trace", compact, batch=3000, timeout=3000)
     for r in results:
